@@ -40,6 +40,12 @@ FAULTS = {
     'bad-include': (["include '/nonexistent/c16_missing_file.gin'"], (IOError,), True),
     'bad-import': (['import c16_missing_module_xyz'], (ImportError,), True),
     'tokenizer-fault-next-statement': (["'unterminated string at the start of a statement"], (SyntaxError, tokenize.TokenError), False),
+    # a statement whose own work fails with a file-system error class (the import opens a data file that is not there / not readable)
+    'import-raises-FileNotFoundError': (['import vfc16_fnf'], (FileNotFoundError,), True),
+    'import-raises-PermissionError': (['import vfc16_perm'], (PermissionError,), True),
+    # ... or is abandoned by an exception that is not an Exception (sys.exit() in a module, Ctrl-C): passes through, leaves nothing behind
+    'import-aborts-SystemExit': (['import vfc16_exit'], (SystemExit,), False),
+    'import-aborts-KeyboardInterrupt': (['import vfc16_kbd'], (KeyboardInterrupt,), False),
 }
 MEMBER_FAULTS = {
     'member-semantic': (['nope = 1'], (ValueError,), True),
@@ -71,6 +77,12 @@ def setup(ctx):
   gin.constant('p.C16AMBIG', 1)
   gin.constant('q.C16AMBIG', 2)
   _S['root'] = tempfile.mkdtemp(prefix='vf-c16-')
+  import sys
+  os.makedirs(os.path.join(_S['root'], 'py'))
+  for mod, body in (('vfc16_fnf', "raise FileNotFoundError(2, 'No such file or directory', 'weights.bin')"), ('vfc16_perm', "raise PermissionError(13, 'Permission denied', 'secret.bin')"),
+                    ('vfc16_exit', 'import sys\nsys.exit(3)'), ('vfc16_kbd', 'raise KeyboardInterrupt()')):
+    open(os.path.join(_S['root'], 'py', mod + '.py'), 'w').write(body + '\n')
+  sys.path.insert(0, os.path.join(_S['root'], 'py'))
   _S['n'] = itertools.count()
 
 
@@ -185,7 +197,17 @@ class Rendered:
         lines.append(hdr + ':')
         for mi, (p, v) in enumerate(it[3]):
           if fault and fault['where'] == ('member', fid, idx, mi):
+            if (idx + mi) % 2 == 0:
+              lines.append('  # a comment line right before the faulty member')
+              lines.append('')
             put_fault(fault['lines'], '  ')
+          # layout noise inside the block (deterministic per position): comment / blank lines before a member
+          noise = (idx * 7 + mi * 3 + len(lines)) % 5
+          if noise == 0:
+            lines.append('  # a comment inside the block')
+          elif noise == 1:
+            lines.append('')
+            lines.append('      # another one, indented differently')
           vl = vtext(v)
           start = len(lines) + 1
           lines.append('  ' + p + ' = ' + vl[0])
@@ -457,9 +479,11 @@ def one_fault(ctx, case, base, where, cls, depth, kind, gin, gc):
       ctx.check(ln is not None and fstart <= ln <= hi, 'syntax-error-line-outside-statement',
                 '%s: SyntaxError.lineno=%r, statement spans lines %d-%d' % (label, ln, fstart, hi))
       ctx.check(exc.filename == names[ffid], 'syntax-error-wrong-file', '%s: SyntaxError.filename=%r expected %r' % (label, exc.filename, names[ffid]))
-    else:
+    elif isinstance(exc, tokenize.TokenError):
       pos = exc.args[1] if len(exc.args) > 1 and isinstance(exc.args[1], tuple) else None
       ctx.check(pos is None or pos[0] >= fstart, 'syntax-error-line-outside-statement', '%s: TokenError position %r before line %d' % (label, pos, fstart))
+    else:
+      ctx.check(type(exc) in exc_types and 'In ' not in str(exc), 'base-exception-not-passed-through', '%s: %r was altered on its way out' % (label, exc))
   gin.clear_config()
 
 
